@@ -187,6 +187,38 @@ def run(R):
                                     "stderr": e2.decode("utf-8", "replace")[-400:], "tree": cli.tree_json(tree),
                                     "search": search, "replace": replace,
                                     "diff": repr(cli.diff_snap(snap, al.sha_dict(ref)))[:1200]})
+    # case-only path renames (foobar -> foo_bar makes Foobar.rs -> FooBar.rs): apply probes the file system for case sensitivity;
+    # afterwards the tree is the plan's meaning and nothing else - no scratch entry of the probe either
+    for i in range(max(2, cli_n // 2)):
+        a, b = g.term_pair()
+        flat, snake = "".join(a[:2]), "_".join(a[:2])
+        pas_flat, pas = flat.capitalize(), gen.render(a[:2], "Pascal")
+        tree = [{"p": "src", "k": "d", "m": 0o755}, {"p": f"src/{pas_flat}.rs", "k": "f", "c": (f"struct {pas_flat};\n// {flat}\n").encode(), "m": 0o644},
+                {"p": f"src/{pas_flat}_dir", "k": "d", "m": 0o755}, {"p": f"src/{pas_flat}_dir/mod.rs", "k": "f", "c": b"// plain\n", "m": 0o644},
+                {"p": "keep.txt", "k": "f", "c": b"untouched\n", "m": 0o600}]
+        for via_plan in (False, True):
+            with cli.Sandbox(tree) as sb:
+                rc, o, e = sb.run(["--no-auto-init", "plan", flat, snake, "--dry-run", "--output", "json", "--quiet"])
+                try:
+                    doc = json.loads(o.decode("utf-8"))
+                    plan = al.relativize(doc.get("plan", doc), sb.root)
+                except Exception:
+                    continue
+                ref = al.reference_apply(al.tree_dict(tree), plan)
+                if isinstance(ref, tuple):
+                    continue
+                if via_plan:
+                    sb.run(["--no-auto-init", "plan", flat, snake, "--quiet"])
+                    rc2, o2, e2 = sb.run(["--no-auto-init", "-y", "apply"])
+                else:
+                    rc2, o2, e2 = sb.run(["--no-auto-init", "-y", "rename", flat, snake])
+                snap = sb.snapshot()
+                R.case(("cli_case_only", flat, snake, via_plan), nontrivial=True)
+                out["case_only_runs"] = out.get("case_only_runs", 0) + 1
+                if rc2 != 0 or snap != al.sha_dict(ref):
+                    out["fail"].append({"why": "after a case-only rename the tree is not exactly the plan's meaning", "rc": rc2,
+                                        "stderr": e2.decode("utf-8", "replace")[-300:], "tree": cli.tree_json(tree), "search": flat, "replace": snake,
+                                        "via_plan_apply": via_plan, "diff": repr(cli.diff_snap(snap, al.sha_dict(ref)))[:1000]})
     # a plan saved under a name of the user's choosing, applied LATER by that name while renamify's own default plan file
     # holds a different, newer plan: what is applied is the named plan and nothing else
     for i in range(cli_n):
@@ -220,7 +252,7 @@ def run(R):
     H.close()
     M.close()
     R.coverage["input_distribution"] = {k: out.get(k, 0) for k in ("hunks", "renames", "dir_renames", "skipped_collision", "shuffled_plans",
-                                                                     "occupied_destination_cases", "collision_refused", "named_plan_runs")}
+                                                                     "occupied_destination_cases", "collision_refused", "named_plan_runs", "case_only_runs")}
     R.disagreements = len(out["dis"])
     for f in out["fail"][:3]:
         R.violation(f["why"], {"kind": "impl_failure", **f})
